@@ -17,6 +17,10 @@ mod util;
 #[path = "/verif/harness/common/wire.rs"]
 mod wire;
 
+// the composition Source || Server || KeySet (spec/Assoc.tla) reuses the client driver of this file
+#[path = "/verif/harness/ntp_proto/assoc.rs"]
+mod assoc;
+
 use util::{Rng, b, i, s};
 use wire::{Ef, Hdr};
 
